@@ -8,7 +8,7 @@ set -u
 kind=$1; name=$2
 case $kind in
 seed)
-  d=/tmp/mut2/$name; mkdir -p $d/_out
+  d=${SEED_GEN_DIR:-/tmp/mut2}/$name; mkdir -p $d/_out
   git -C /repo worktree add -q --detach $d/wt HEAD || exit 2
   cd $d/wt && git rm -q $(git ls-files | grep 'zz_contracts.*_verif.go') && git -c user.name=scratch -c user.email=s@x commit -qm "scratch: worktree without contract files" && echo "$d/wt ready"
   ;;
